@@ -13,8 +13,8 @@ package descriptor
 //                    the OS-version comparison being an order, see lemma better-transitive)
 //@ func DescriptorListSearch(dl, opt) (ret, err)
 //@   prop C16
-//@   requires opt.ArtifactType == "" && opt.SortAnnotation == "" && len(opt.Annotations) == 0
-//@   requires opt.Platform != nil
+//@   scope opt.ArtifactType == "" && opt.SortAnnotation == "" && len(opt.Annotations) == 0
+//@   scope opt.Platform != nil
 //@   let n0 = len(dl)
 //@   let dl0 = dl
 //@   loop 0 (d)
